@@ -128,11 +128,15 @@ _cond("C16", [("MC_C16", "MC_C16_quick.cfg")],
 _cond("C17", [("MC_C16", "MC_C17_quick.cfg")],
       "PARTIAL CLAIM (see level_note). Clause 1: condition_on_x of every heteroscedastic class is specified exactly (mean Mx+b, covariance AA' + A_k diag(link(Wx+w0)) A_k' with link values as rationals or exp-atoms at exact points) and replayed; the precision / log-determinant / normalisation of the returned density are checked for coherence with the returned covariance on the code object (for Da = Dy and Da > Dy). Step link: integrate_log_conditional_y is specified as the exact expectation E[ln p(y|x)] through truncated Gaussian moments (Phi/phi atoms at rational arguments) for square A, any Dk <= Da, Dx in {1,2}, and replayed. Tightness at zero input weights (exp and cosh-1 links, non-zero offsets, square A): the bound must equal the closed-form homoscedastic value (sigmoid / ln(1+e^t) / sech / ln cosh atoms) - gap exactly zero.",
       "4 link classes; Dy,Dx in {1,2}; Dk in {1,2}; Da in {2,3}; points on both sides of every hyperplane h_i = 0")
-PROPS["C17"]["level_note"] = ("NOT DECIDED by this technique: validity of the variational lower bounds for the exp, cosh-1 and rectified-linear links at "
-    "non-zero input weights and the quadratic decay of the gap (clauses 2-3 of the property, except the zero-weight equality): the true expectation is a Gaussian integral of ln(1+e^h)-type functions with no "
-    "closed form in the atom algebra, and the bound goes through a transcendental fixed point; deciding it needs numerical quadrature, "
-    "which is a different technique (DESIGN section 7). The step-link equality is decided for square A only (for Da > Dy the shipped "
-    "decomposition is the known finding KF-2). " + _LN)
+PROPS["C17"]["level_note"] = ("Clause 2 (the value never exceeds the true expectation) is decided STRUCTURALLY, not by computing the true expectation: "
+    "every ingredient of the bound is shown to equal, for ARBITRARY rational expansion points chosen by TLC, the expectation of a bound that is valid for every "
+    "expansion point (tangent of a concave function; Jaakkola-Jordan) - the log-determinant ingredient k_func for the exp, cosh-1 and rectified-linear links, the "
+    "heteroscedastic quadratic ingredient for the rectified-linear link - and the shipped value is shown to be the stated combination of these ingredient functions "
+    "(evaluated at the code's own expansion points) with the exact homoscedastic terms of the specification. NOT DECIDED: the quadratic ingredient of the exp and "
+    "cosh-1 links (its Gaussian integral has the transcendental tanh(om/2)/om inside a matrix inverse, which the atom algebra cannot represent) and the quadratic "
+    "decay of the gap (clause 3, except the zero-weight equality, which is decided). The ingredients are internals (k_func, _lower_bound_integrals, _get_omega_*): "
+    "if a refactoring removes or re-signs them the steps give no verdict (counter bound_ingredient_not_exposed), never an alarm. The step-link equality is decided "
+    "for square A only (for Da > Dy the shipped decomposition is the known finding KF-2). " + _LN)
 
 import os as _os
 _SPEC = _os.path.join(_os.path.dirname(_os.path.dirname(_os.path.abspath(__file__))), "spec")
